@@ -181,6 +181,7 @@ class Entry:
   randomized_oracle: Callable[[dict, tuple], list] | None = None
   tol: dict | None = None        # component -> (rtol, atol); default RTOL, ATOL
   offset: bool = False           # large-offset alphabet (C01 only)
+  noncanon: bool = False         # non-canonical list-valued config (C01 only)
   null_rows: tuple = ()          # counter-only rows (see module docstring)
 
   def _tol(self, comp):
@@ -934,12 +935,203 @@ def _build_offset():
   return E
 
 
+# --------------------------------------------------------------------------
+# non-canonical list-valued configurations (C01)
+# --------------------------------------------------------------------------
+#
+# The property quantifies over "all metric configurations (k-list, vocabulary,
+# bins)".  The entries above give every list-valued configuration in its
+# canonical form (ascending, duplicate-free k_list / thresholds, a vocabulary
+# whose insertion order is its index order, patterns and metric names in the
+# default order).  An accumulator that normalises its configuration per batch
+# (sorted(k_list), set(k_list), sorted(thresholds), vocab[label]) and then
+# truncates / pads it by the batch's longest prediction only produces a batch
+# dependent *column order* when the configuration is not already canonical.
+# Every accumulator with a list- or mapping-valued configuration is therefore
+# listed again with that configuration
+#   * permuted with a larger value before a smaller one among the non-maximal
+#     values ((2,1,3)), descending ((3,1), (2,1)), with a value beyond the
+#     longest prediction after an inversion ((2,1,5)), and with duplicates
+#     ((2,2,1), thresholds (0.65,0.25,0,0.25));
+#   * vocabulary {'c':0,'a':2,'b':1}: neither alphabetical nor in index order;
+#   * metric-name lists in a non-default order (names stay unique: a repeated
+#     name is not a configuration the property quantifies over, and
+#     TopKRetrieval.merge folds the state of a repeated name twice);
+#   * patterns in non-sorted order,
+# over the same colliding row alphabets (ragged rankings of length 1..3, so
+# the longest prediction differs between the batches and shards of a history).
+# Histogram edges must be increasing (numpy raises otherwise), PatternFrequency
+# patterns must be unique (the constructor raises): outside the domain.
+# TopKRetrieval keeps an empty sig_tag on purpose: the known per-batch-k
+# findings (threat_score / mean_average_precision / ndcg_score over ragged
+# predictions) are the same defects under these configurations.
+
+NONCANON_K_LISTS = ((2, 1, 3), (2, 2, 1), (3, 1), (2, 1, 5))
+NONCANON_VOCAB = {'c': 0, 'a': 2, 'b': 1}
+
+
+def _build_noncanon():
+  E = []
+
+  def add(**kw):
+    E.append(Entry(noncanon=True, **kw))
+
+  def agg_of(factory):
+    return lambda: factory().as_agg_fn()
+
+  def rt():
+    from ml_metrics._src.aggregates import retrieval
+    return retrieval
+
+  def cl():
+    from ml_metrics._src.aggregates import classification
+    return classification
+
+  def mc():
+    from ml_metrics._src.metrics import classification
+    return classification
+
+  def tx():
+    from ml_metrics._src.aggregates import text
+    return text
+
+  # the alphabets of _build()
+  ragged = ((('a', 'b'), ('b',)), (('a', 'b'), ('c', 'a')),
+            (('b',), ('a', 'b', 'c')))
+  len3 = ((('a',), ('a', 'b', 'c')), (('a', 'b'), ('c', 'a', 'b')),
+          (('b', 'c', 'a'), ('b', 'a', 'c')))
+  mclass = (('a', 'a'), ('b', 'c'), ('c', 'a'))
+  moutput = ((('a',), ('a', 'b')), (('b', 'c'), ('c',)),
+             (('a', 'c'), ('b', 'a', 'c')))
+  binary = ((1, 1), (1, 0), (0, 1), (0, 0))
+  no_hit = {'ragged': ((('c',), ('a', 'b')),),
+            'len3': ((('d',), ('a', 'b', 'c')),)}
+
+  def ragged_class(rows):
+    lens = {len(r[1]) for r in rows}
+    return 'ragged-predictions' if len(lens) > 1 else 'equal-length-predictions'
+
+  # ---- TopKRetrieval: k_list, metrics --------------------------------------
+  def topk(**kw):
+    return lambda: rt().TopKRetrieval(**kw)
+  # all 17 metrics for the first k_list over the ragged alphabet; the other
+  # (k_list, alphabet) pairs with one metric per formula family, named in a
+  # non-default order (cost: an entry with all metrics is ~3x as expensive)
+  some = ('recall', 'dcg_score', 'accuracy', 'intersection_over_union',
+          'precision', 'mean_reciprocal_rank')
+  for kl in NONCANON_K_LISTS:
+    for label, alpha in (('ragged', ragged), ('len3', len3)):
+      if label == 'len3' and kl != NONCANON_K_LISTS[0]:
+        continue   # equal-length rankings: one permuted k_list
+      full = kl == NONCANON_K_LISTS[0] and label == 'ragged'
+      kw = dict(k_list=kl) if full else dict(k_list=kl, metrics=some)
+      cfg = f'k_list={kl},{label}' + ('' if full else ',metrics=6-reordered')
+      add(name='TopKRetrieval', cfg=cfg, family='retrieval',
+          alphabet=alpha, to_batch=cols_list(2), factory=topk(**kw),
+          aggfn_factory=agg_of(topk(**kw)), canon=_canon_dict,
+          per_example=_topk_per_example(kl), classify=ragged_class,
+          null_rows=no_hit[label])
+
+  # ---- ThresholdedRetrieval: thresholds --------------------------------------
+  thr_rows = ((('a', 'b'), ('a', 'c', 'b'), (0.9, 0.8, 0.3)),
+              (('c',), ('c',), (0.6,)),
+              (('a',), ('b', 'a'), (0.7, 0.2)))
+  for th in ((0.5, 0.0), (0.65, 0.25, 0.0, 0.25)):
+    add(name='ThresholdedRetrieval', cfg=f'thresholds={th}', family='retrieval',
+        alphabet=thr_rows, to_batch=cols_list(3),
+        factory=(lambda th=th: rt().ThresholdedRetrieval(thresholds=th)),
+        canon=_canon_dict,
+        null_rows=((('a',), ('b',), (0.9,)), (('c',), ('b', 'a'), (0.1, 0.1))))
+
+  # ---- confusion matrices: vocabulary, k_list, metrics ----------------------
+  CM_METRICS = ('confusion_matrix', 'precision', 'recall', 'f1_score',
+                'specificity', 'binary_accuracy')
+  CM_REV = ('binary_accuracy', 'recall', 'f1_score', 'precision',
+            'specificity', 'confusion_matrix')
+  vocab = NONCANON_VOCAB
+  tag = 'noncanonical-config'
+
+  def cmfn(metrics=CM_METRICS, **kw):
+    return lambda: cl().ConfusionMatrixAggFn(metrics=metrics, **kw)
+  for cfg, alpha, tb, kw in [
+      ('multiclass/macro+vocab=c0a2b1', mclass, cols(2),
+       dict(input_type='multiclass', average='macro', vocab=vocab)),
+      ('multioutput/macro+vocab=c0a2b1', moutput, cols_list(2),
+       dict(input_type='multiclass-multioutput', average='macro', vocab=vocab)),
+      ('multioutput/micro+vocab=c0a2b1', moutput, cols_list(2),
+       dict(input_type='multiclass-multioutput', average='micro', vocab=vocab)),
+      ('binary/binary,metrics=reordered', binary, cols(2),
+       dict(metrics=CM_REV)),
+  ]:
+    add(name='ConfusionMatrixAggFn', cfg=cfg, family='classification',
+        alphabet=alpha, to_batch=tb, aggfn_factory=cmfn(**kw),
+        canon=_canon_cm_result, sig_tag=tag)
+
+  def topkcm(**kw):
+    return lambda: cl().TopKConfusionMatrixAggFn(metrics=CM_METRICS, **kw)
+  for cfg, alpha, tb, kw in [
+      ('multioutput/micro+vocab=c0a2b1,k=(2,1)', moutput, cols_list(2),
+       dict(input_type='multiclass-multioutput', average='micro', vocab=vocab,
+            k_list=(2, 1))),
+      ('multioutput/macro+vocab=c0a2b1,k=(3,1,2,1)', moutput, cols_list(2),
+       dict(input_type='multiclass-multioutput', average='macro', vocab=vocab,
+            k_list=(3, 1, 2, 1))),
+      ('multiclass/micro+vocab=c0a2b1,k=(2,1)', mclass, cols(2),
+       dict(input_type='multiclass', average='micro', vocab=vocab,
+            k_list=(2, 1))),
+  ]:
+    add(name='TopKConfusionMatrixAggFn', cfg=cfg, family='classification',
+        alphabet=alpha, to_batch=tb, aggfn_factory=topkcm(**kw),
+        canon=_canon_cm_result, sig_tag=tag)
+
+  SW_REV = ('accuracy', 'recall', 'f1_score', 'precision')
+
+  def sw(**kw):
+    return lambda: cl().SamplewiseClassification(**kw)
+  for cfg, alpha, tb, kw in [
+      ('multiclass+vocab=c0a2b1', mclass, cols(2),
+       dict(metrics=SW_REV, input_type='multiclass', vocab=vocab)),
+      ('multioutput+vocab=c0a2b1', moutput, cols_list(2),
+       dict(metrics=SW_REV, input_type='multiclass-multioutput', vocab=vocab)),
+  ]:
+    add(name='SamplewiseClassification', cfg=cfg, family='classification',
+        alphabet=alpha, to_batch=tb, factory=sw(**kw),
+        aggfn_factory=agg_of(sw(**kw)), canon=_canon_dict,
+        per_example=_samplewise_per_example, sig_tag=tag)
+
+  def clsfn(**kw):
+    return lambda: mc().ClassificationAggFn(**kw)
+  add(name='ClassificationAggFn', cfg='multioutput/samples+vocab=c0a2b1',
+      family='classification', alphabet=moutput, to_batch=cols_list(2),
+      aggfn_factory=clsfn(metrics=SW_REV, average='samples', vocab=vocab,
+                          input_type='multiclass-multioutput'),
+      canon=_canon_dict, sig_tag=tag)
+  add(name='ClassificationAggFn', cfg='multioutput/micro+vocab=c0a2b1,k=(2,1)',
+      family='classification', alphabet=moutput, to_batch=cols_list(2),
+      aggfn_factory=clsfn(metrics=('recall', 'precision'), average='micro',
+                          vocab=vocab, input_type='multiclass-multioutput',
+                          k_list=(2, 1)),
+      canon=_canon_cm_result, sig_tag=tag)
+
+  # ---- text: patterns ----------------------------------------------------------
+  for cd in (True, False):
+    add(name='PatternFrequency', cfg=f'patterns=(b,ab),count_duplicate={cd}',
+        family='text', alphabet=('abab', 'b', 'xyz'), to_batch=col,
+        factory=(lambda cd=cd: tx().PatternFrequency(
+            patterns=('b', 'ab'), count_duplicate=cd)),
+        aggfn_factory=agg_of(lambda cd=cd: tx().PatternFrequency(
+            patterns=('b', 'ab'), count_duplicate=cd)),
+        empty_batch_ok=True, null_rows=('xyz',), sig_tag=tag)
+  return E
+
+
 _CATALOGUE = None
 _OFFSET = None
 
 
 def catalogue(offset=False):
-  """The catalogue; offset=True adds the large-offset entries (C01)."""
+  """The catalogue; offset=True adds the C01-only entries (large-offset
+  alphabets, non-canonical list-valued configurations)."""
   global _CATALOGUE, _OFFSET
   if _CATALOGUE is None:
     entries = _build()
@@ -949,7 +1141,9 @@ def catalogue(offset=False):
   if not offset:
     return _CATALOGUE
   if _OFFSET is None:
-    extra = {e.key: e for e in _build_offset()}
+    more = _build_offset() + _build_noncanon()
+    extra = {e.key: e for e in more}
+    assert len(extra) == len(more), 'duplicate catalogue keys'
     assert not set(extra) & set(_CATALOGUE), 'duplicate catalogue keys'
     _OFFSET = dict(_CATALOGUE, **extra)
   return _OFFSET
